@@ -20,7 +20,7 @@ order (heap-shape reasoning); hint validity.
 """
 from .. import astfacts, listrules, treewalk, typestate
 from ..facts import Prover, edge_atoms, _k, strip_bitcasts
-from ..ir import const_int, resolve_addr
+from ..ir import const_int, resolve_addr, unit_step
 from .util import floc
 
 NODE = 'cstl_bintree_node'
@@ -70,10 +70,11 @@ def run(m, rep, tier):
             site = '%s:size-store' % f.name
             if const_int(s.o[0]) == 0:
                 w3.ok(site, ':= 0', s.loc())
-            elif v is not None and v.op == 'add' and const_int(v.o[1]) in (1, (1 << 64) - 1):
-                ld = f.get(v.o[0])
+            elif unit_step(f, s.o[0])[1]:
+                base, step = unit_step(f, s.o[0])
+                ld = f.get(base) if isinstance(base, str) else None
                 if ld is not None and ld.op == 'load' and resolve_addr(f, ld.o[0]).fsteps[-1:] == (('cstl_bintree', 'size'),):
-                    w3.ok(site, 'size %s 1' % ('+' if const_int(v.o[1]) == 1 else '-'), s.loc())
+                    w3.ok(site, 'size %s 1' % ('+' if step == 1 else '-'), s.loc())
                     if f not in adj:
                         adj.append(f)
                 else:
@@ -83,9 +84,9 @@ def run(m, rep, tier):
     for f in adj:
         if (f.file or '').endswith('bintree.c'):      # the heap's own push/pop belong to C07 (not applicable)
             listrules.count_once(m, f, w3, 'cstl_bintree', 'size', site=f.name + ':once')
-    for need, c, what in (('insert', 1, 'increments'), ('erase', (1 << 64) - 1, 'decrements')):
+    for need, c, what in (('insert', 1, 'increments'), ('erase', -1, 'decrements')):
         have = [f for f in adj if (f.file or '').endswith('bintree.c') and any(
-            s.op == 'store' and f.get(s.o[0]) is not None and f.get(s.o[0]).op == 'add' and const_int(f.get(s.o[0]).o[1]) == c
+            s.op == 'store' and unit_step(f, s.o[0])[1] == c
             and resolve_addr(f, s.o[1]).fsteps[-1:] == (('cstl_bintree', 'size'),) for s in f.all_insts())]
         if not have:
             w3.violation('bintree:%s' % need, 'no function of bintree.c %s the size although the API can %s elements' % (what, need), 'src/bintree.c', {})
